@@ -293,6 +293,10 @@ def judge_module_rule(ev: Event) -> None:
     got_ok = ev.outcome == "pass"
     acc.hist("c01_shape_outcome", f"{rrule.shape(cfg)}:{ev.outcome}")
     acc.count("c01_judged")
+    from .refmodel.names import pairwise_unrelated as _pu
+
+    if not _pu([n for _, n in cfg["subs"] + cfg["objs"]]):
+        acc.count("c01_judged_nested_lists")
     if "C01" in HUB.judges and got_ok != exp_ok:
         HUB.violation(
             "C01",
